@@ -1,4 +1,5 @@
 import Failsafe.Conc.Cancel
+import Failsafe.Exec
 import Failsafe.Generated.Facts
 /-!
 # C08 — cancellation stops the execution promptly and is reported as its cause
@@ -48,6 +49,65 @@ theorem async_cancel_misattribution_witness_previous_shape :
   have : (reach false .async).any (fun s => !attributed .async s) = true := by decide +kernel +kernel
   obtain ⟨s, hs, hn⟩ := List.any_eq_true.1 this
   exact ⟨s, hs, by simpa using hn⟩
+
+/-! ## the same property over the sequential composition model (`Exec.lean`), for an **arbitrary inner layer**
+
+`Run.ext` is the cause of an external cancellation (context / async `Cancel`), `Run.cancelled` the enclosing Timeout's. The
+differential check drives these paths deterministically: the harness cancels from inside the k-th function invocation or the
+k-th `OnRetryScheduled` listener, or before the execution starts. -/
+section composition
+open Failsafe Failsafe.Exec Failsafe.Classify
+
+/-- **the error identifies the cause**: the result a cancelled execution reports carries the external cause (or
+`timeout.ErrExceeded` when its Timeout fired first), is final, and is never a success -/
+theorem cancelRes_is_cause (r : Run) :
+    (r.cancelled = true → r.cancelRes = timeoutResult) ∧
+    (r.cancelled = false → ∀ e, r.ext = some e → r.cancelRes = failureResult e) ∧
+    r.cancelRes.done = true ∧ r.cancelRes.success = false ∧ r.cancelRes.successAll = false := by
+  refine ⟨?_, ?_, Run.cancelRes_done r, (Run.cancelRes_not_success r).1, (Run.cancelRes_not_success r).2⟩
+  · intro h; simp [Run.cancelRes, h]
+  · intro h e he; simp [Run.cancelRes, h, he]
+
+/-- **no further attempt**: when what the retry policy wraps returns and the execution is cancelled, the policy returns the
+cancellation result at once — whatever the result was, whatever budget is left; nothing inside is invoked again -/
+theorem retry_stops_when_cancelled (pos : Nat) (m : Int) (rl : Bool) (h a : List Cond) (inner : Layer) (fuel : Nat) (r : Run)
+    (res1 : PR) (r1 : Run) (hi : inner r = some (res1, r1)) (hc : r1.isCanc = true) :
+    retryLoop pos m rl h a inner (fuel + 1) r = some (r1.cancelRes, r1) := by
+  simp only [retryLoop, hi, hc, if_true]
+
+/-- **a delay is not waited out**: when the execution is cancelled while a retry is scheduled, the loop returns the cancellation
+result without starting the retry: attempts and retries are those at the moment of scheduling -/
+theorem retry_cancelled_during_delay (pos : Nat) (m : Int) (rl : Bool) (h a : List Cond) (inner : Layer) (fuel : Nat) (r : Run)
+    (res1 : PR) (r1 : Run) (hi : inner r = some (res1, r1)) (hc : r1.isCanc = false) (he : r1.exceeded.contains pos = false)
+    (hf : isFailure h res1.outcome = true) (hd : (retryOnFailure pos m rl a res1.withFailure r1).1.done = false)
+    (X : Run)
+    (hX : X = (({ (retryOnFailure pos m rl a res1.withFailure r1).2 with
+              last := (retryOnFailure pos m rl a res1.withFailure r1).1.outcome }).emit "rp.onRetryScheduled" pos).trigger "rp.onRetryScheduled")
+    (hx : X.isCanc = true) :
+    retryLoop pos m rl h a inner (fuel + 1) r = some (X.cancelRes, X) ∧
+    X.attempts = (retryOnFailure pos m rl a res1.withFailure r1).2.attempts ∧
+    X.retries = (retryOnFailure pos m rl a res1.withFailure r1).2.retries := by
+  subst hX
+  refine ⟨?_, by simp [Run.emit], by simp [Run.emit]⟩
+  simp only [retryLoop, hi, hc, he, hf, hd, Bool.false_eq_true, if_false, if_true]
+  simp only [hx, if_true]
+
+/-- the scripted cancellation point fires once, with its cause, and never overwrites an earlier cancellation -/
+theorem trigger_ext (r : Run) (n : String) :
+    (r.trigger n).ext = r.ext ∨ (r.ext = none ∧ (r.trigger n).ext = some r.cancelCause) := by
+  unfold Run.trigger
+  split
+  · rename_i nm k _
+    split
+    · by_cases hc : (r.seenAt + 1 == k && r.ext.isNone) = true
+      · right
+        simp only [Bool.and_eq_true, Option.isNone_iff_eq_none] at hc
+        simp [hc.2, hc.1]
+      · left; simp [hc]
+    · left; rfl
+  · left; rfl
+
+end composition
 
 example : (reach hasCF .async).any (fun s => s.pc == .returned .execCanceled) = true := by decide +kernel
 example : (reach hasCF .timeout).any (fun s => s.pc == .returned .timeoutRes && s.attempts == 2) = true := by decide +kernel
